@@ -40,7 +40,7 @@ func (m *Mutex) Lock() {
 				soloFail("LIBRARY_BLOCKED", "mutex locked at "+m.lockedFn+"; holder "+soloHow(), map[string]string{"locked_at": m.lockedAt, "note": "single caller, nobody else can release it"})
 			}
 			m.lockedAt, m.lockedFn = callerOutside()
-			soloHeld = append(soloHeld, "mutex locked at "+m.lockedFn)
+			soloHeld = append(soloHeld, soloLock{m, "mutex locked at " + m.lockedFn})
 			return
 		}
 		m.real.Lock()
@@ -91,7 +91,7 @@ func (m *Mutex) TryLock() bool {
 func (m *Mutex) Unlock() {
 	if !active || cur == nil {
 		if Solo {
-			soloDrop("mutex locked at " + m.lockedFn)
+			soloDrop(m)
 		}
 		m.real.Unlock()
 		return
@@ -132,13 +132,23 @@ type RWMutex struct {
 	ord      int32
 	lockedAt string
 	lockedFn string
+	// writer preference, as documented for sync.RWMutex: once a writer has called Lock, new RLock calls wait until
+	// that writer has acquired and released the lock (which is why recursive read-locking can deadlock); the readers
+	// that were waiting are all admitted by the writer's Unlock, before any later writer
+	wWaiting int
+	rWaiters []*rwRead
 }
 
 type rwWrite struct{ m *RWMutex }
-type rwRead struct{ m *RWMutex }
+type rwRead struct {
+	m        *RWMutex
+	admitted bool
+}
 
 func (w rwWrite) canProceed(t *task) bool { return !w.m.writer && w.m.readers == 0 }
-func (r rwRead) canProceed(t *task) bool  { return !r.m.writer }
+func (r *rwRead) canProceed(t *task) bool {
+	return r.admitted || (!r.m.writer && r.m.wWaiting == 0)
+}
 
 func (m *RWMutex) Lock() {
 	if !active || cur == nil {
@@ -147,7 +157,7 @@ func (m *RWMutex) Lock() {
 				soloFail("LIBRARY_BLOCKED", "rwmutex locked at "+m.lockedFn+"; holder "+soloHow(), map[string]string{"locked_at": m.lockedAt})
 			}
 			m.lockedAt, m.lockedFn = callerOutside()
-			soloHeld = append(soloHeld, "rwmutex locked at "+m.lockedFn)
+			soloHeld = append(soloHeld, soloLock{m, "rwmutex locked at " + m.lockedFn})
 			return
 		}
 		m.real.Lock()
@@ -159,7 +169,9 @@ func (m *RWMutex) Lock() {
 	w := rwWrite{m}
 	if !w.canProceed(t) {
 		probe("mutex_contended")
+		m.wWaiting++
 		block(t, w)
+		m.wWaiting--
 	}
 	m.writer = true
 	m.wHolder = t.id
@@ -175,7 +187,7 @@ func (m *RWMutex) Lock() {
 func (m *RWMutex) Unlock() {
 	if !active || cur == nil {
 		if Solo {
-			soloDrop("rwmutex locked at " + m.lockedFn)
+			soloDrop(m)
 		}
 		m.real.Unlock()
 		return
@@ -190,6 +202,12 @@ func (m *RWMutex) Unlock() {
 	m.vc.join(&t.vc)
 	t.vc[t.id]++
 	m.writer = false
+	for _, r := range m.rWaiters {
+		if !r.admitted {
+			r.admitted = true
+			m.readers++
+		}
+	}
 	dropRW(m)
 	logEv('U', uint64(t.id), uint64(m.ord), 2)
 	point(t, -1, ClsSync, true)
@@ -220,7 +238,7 @@ func (m *RWMutex) RLock() {
 				soloFail("LIBRARY_BLOCKED", "rwmutex locked at "+m.lockedFn+"; holder "+soloHow(), map[string]string{"locked_at": m.lockedAt})
 			}
 			m.lockedAt, m.lockedFn = callerOutside()
-			soloHeld = append(soloHeld, "rwmutex locked at "+m.lockedFn)
+			soloHeld = append(soloHeld, soloLock{m, "rwmutex locked at " + m.lockedFn})
 			return
 		}
 		m.real.RLock()
@@ -229,12 +247,24 @@ func (m *RWMutex) RLock() {
 	t := cur
 	nextOrd(&m.ord)
 	point(t, -1, ClsSync, true)
-	r := rwRead{m}
+	r := &rwRead{m: m}
 	if !r.canProceed(t) {
 		probe("mutex_contended")
+		if !m.writer {
+			probe("rlock_waits_behind_pending_writer")
+		}
+		m.rWaiters = append(m.rWaiters, r)
 		block(t, r)
+		for i, x := range m.rWaiters {
+			if x == r {
+				m.rWaiters = append(m.rWaiters[:i], m.rWaiters[i+1:]...)
+				break
+			}
+		}
 	}
-	m.readers++
+	if !r.admitted {
+		m.readers++
+	}
 	m.lockedAt, m.lockedFn = callerOutside()
 	t.heldRW = append(t.heldRW, m)
 	t.vc.join(&m.vc)
@@ -246,7 +276,7 @@ func (m *RWMutex) RLock() {
 func (m *RWMutex) RUnlock() {
 	if !active || cur == nil {
 		if Solo {
-			soloDrop("rwmutex locked at " + m.lockedFn)
+			soloDrop(m)
 		}
 		m.real.RUnlock()
 		return
@@ -291,7 +321,7 @@ func (m *RWMutex) TryRLock() bool {
 		return m.real.TryRLock()
 	}
 	point(cur, -1, ClsSync, true)
-	if m.writer {
+	if m.writer || m.wWaiting > 0 {
 		return false
 	}
 	t := cur
@@ -551,8 +581,15 @@ func AtomicCompareAndSwapPointer(p *unsafe.Pointer, o, n unsafe.Pointer) bool {
 var (
 	Solo     bool
 	SoloFail func(class, key string, detail map[string]string)
-	soloHeld []string
+	soloHeld []soloLock
 )
+
+// soloLock: one acquisition (a recursive read lock appears twice); released by identity, not by the name of the
+// function that locked last
+type soloLock struct {
+	id   interface{}
+	name string
+}
 
 func soloHow() string {
 	return "is the single caller itself (an earlier call left it locked, or the lock is re-entered)"
@@ -565,9 +602,9 @@ func soloFail(class, key string, d map[string]string) {
 	panic("simrt: solo violation " + class + " " + key)
 }
 
-func soloDrop(name string) {
+func soloDrop(id interface{}) {
 	for i := len(soloHeld) - 1; i >= 0; i-- {
-		if soloHeld[i] == name {
+		if soloHeld[i].id == id {
 			soloHeld = append(soloHeld[:i], soloHeld[i+1:]...)
 			return
 		}
@@ -579,7 +616,7 @@ var soloMulti atomic.Bool
 // SoloEnd reports a lock that is still held after the call.
 func SoloEnd(how string) {
 	if Solo && !soloMulti.Load() && len(soloHeld) > 0 {
-		soloFail("LIBRARY_BLOCKED", soloHeld[len(soloHeld)-1]+" still held after call "+how, map[string]string{"how": how})
+		soloFail("LIBRARY_BLOCKED", soloHeld[len(soloHeld)-1].name+" still held after call "+how, map[string]string{"how": how})
 	}
 }
 
